@@ -211,6 +211,9 @@ def fix_winners(rng, cid, cs, records):
     may edit cs (winner, share, assertion_json) and, as a last resort, the records"""
     cf = cs["choice_function"]
     recs = [r for r in records if cid in r]
+    if cf in (PLURALITY, APPROVAL) and cs["n_winners"] >= len(cs["candidates"]):
+        cs["winner"] = list(cs["candidates"])
+        return
     if cf in (PLURALITY, APPROVAL):
         k = cs["n_winners"]
         for _ in range(50):
@@ -333,10 +336,15 @@ def gen_contest(rng, cid, audit_type, kinds=None, shared_names=False):
     k = 1
     if cf in (PLURALITY, APPROVAL) and ncand > 2 and rng.random() < 0.3:
         k = rng.randint(1, ncand - 1)
+    if cf == PLURALITY and rng.random() < 0.04:
+        k = ncand  # uncontested: as many seats as candidates, nothing to assert
     cs = {
         "choice_function": cf, "n_winners": k, "candidates": cands, "winner": cands[:k],
         "share_to_win": None, "risk_limit": rng.pick([0.01, 0.05, 0.1, 0.2, 0.5]),
         "cards": None, "audit_type": audit_type, "g": 0.1, "assertion_json": None,
+        # super-majority: build the assertion by calling the constructor directly without the share argument, as the
+        # library's own test does (the share is an attribute of the contest)
+        "sm_direct": bool(rng.random() < 0.5),
     }
     cs.update(gen_test(rng, audit_type))
     return cs
@@ -408,6 +416,11 @@ def make_assertions(ns, world, contests):
                 losers = [c for c in con.candidates if c not in con.winner]
                 con.assertions = ns.Assertion.make_plurality_assertions(
                     contest=con, winner=list(con.winner), loser=losers, test=con.test,
+                    test_kwargs=dict(con.test_kwargs), estim=con.estim, bet=con.bet)
+            elif cs["choice_function"] == SUPERMAJORITY and cs.get("sm_direct"):
+                losers = [c for c in con.candidates if c not in con.winner]
+                con.assertions = ns.Assertion.make_supermajority_assertion(
+                    contest=con, winner=con.winner[0], loser=losers, test=con.test,
                     test_kwargs=dict(con.test_kwargs), estim=con.estim, bet=con.bet)
             else:
                 ns.Assertion.make_all_assertions({cid: con})
